@@ -3,7 +3,10 @@ package chain
 import (
 	"context"
 	"fmt"
+	"github.com/oasisprotocol/oasis-core/go/common"
+	"github.com/oasisprotocol/oasis-core/go/roothash/api/commitment"
 	"os"
+	"runtime/debug"
 	"time"
 
 	"github.com/cometbft/cometbft/abci/types"
@@ -100,7 +103,7 @@ func NewReplica(w *World, cfg ReplicaConfig) (*Replica, error) {
 		governanceApp.New(state, md),
 		keymanagerApp.New(state),
 		registryApp.New(state, md),
-		roothashApp.New(state, md, nil),
+		roothashApp.New(state, md, noopCommitmentNotifier{}),
 		schedulerApp.New(state, md),
 		sApp,
 		vaultApp.New(state, md),
@@ -181,10 +184,20 @@ func InitChainRequest(w *World) (types.RequestInitChain, []types.ValidatorUpdate
 }
 
 // Call runs f and converts a panic into an error (block processing panics are observations).
+// noopCommitmentNotifier stands in for the roothash service client that a node passes to the roothash application
+// (it is told about executor commitments observed in CheckTx).
+type noopCommitmentNotifier struct{}
+
+func (noopCommitmentNotifier) DeliverExecutorCommitment(common.Namespace, *commitment.ExecutorCommitment) {
+}
+
 func Call(f func()) (err error) {
 	defer func() {
 		if r := recover(); r != nil {
 			err = fmt.Errorf("panic: %v", r)
+			if os.Getenv("VERIF_PANIC_STACK") != "" {
+				err = fmt.Errorf("panic: %v\n%s", r, debug.Stack())
+			}
 		}
 	}()
 	f()
